@@ -66,7 +66,13 @@ func (s *Slicer) localClosureCallee(v ssa.Value) *ssa.Function {
 			case *ssa.Function:
 				only = x
 			default:
-				return nil
+				// alias of another closure variable
+				if x != v {
+					only = s.localClosureCallee(st.Val)
+				}
+				if only == nil {
+					return nil
+				}
 			}
 		}
 		if n == 1 {
